@@ -6,6 +6,7 @@ to_er7() is compared with the model's encoding.
 import itertools
 
 from .. import tables, gen, hist
+from . import c02
 
 ID = 'C09'
 LEVEL = 'exploration'
@@ -133,7 +134,12 @@ def run_random(spec, rec):
     for i in range(spec['n']):
         level = 2 if i % 3 else 1
         try:
-            if spec['world'] == 'segment' and i % 4 == 3:
+            if spec['world'] == 'segment' and i % 8 == 5:
+                # open-ended segments: fields beyond the table, written in any order
+                opens = c02.open_ended_segments(v)
+                w = hist.make_world('segment', v, level, rng, seg=opens[(i // 8) % len(opens)])
+                rec.count('open_ended_segment_worlds')
+            elif spec['world'] == 'segment' and i % 4 == 3:
                 # the segment lives in a message declaring non-default delimiters: text assigned to its fields is split
                 # with those
                 w = hist.make_world('segment', v, level, rng, ec=gen.delimiter_set(rng, v, with_truncation=False))
